@@ -151,6 +151,32 @@ def run_case(c):
     except Exception as e:  # noqa
         py_ok = False
         why.append("mutating the copy raised %r" % (e,))
+    # a new node attached below one leaf of the copy becomes the child of that leaf only
+    try:
+        leaves = [n for n in order if len(n.children) == 0 and n is not leaf]
+        if leaves:
+            lf = leaves[0]
+            kids_before = {id(n): [id(x) for x in n.children] for n in order}
+            if isinstance(lf, (ULight, ULightS)):
+                new = type(lf)(parent=lf, v=5)
+            elif isinstance(lf, SymlinkNodeMixin):
+                new = AnyNode(parent=lf)
+            elif isinstance(lf, Node):
+                new = Node("fresh", parent=lf)
+            else:
+                new = type(lf)(parent=lf)
+            if [id(x) for x in lf.children] != [id(new)] or new.parent is not lf:
+                py_ok = False
+                why.append("a node attached below a leaf of the copy is not its only child")
+            for n in order:
+                if n is not lf and [id(x) for x in n.children] != kids_before[id(n)]:
+                    py_ok = False
+                    why.append("attaching below one leaf of the copy changed the children of another node")
+                    break
+            new.parent = None
+    except Exception as e:  # noqa
+        py_ok = False
+        why.append("attaching below a leaf of the copy raised %r" % (e,))
     if cells(nodes, index) != before:
         py_ok = False
         why.append("mutating the copy changed the original")
